@@ -437,6 +437,15 @@ def r15_6(run):
                 tv = getattr(b_, "value", None) if b_ is not None and getattr(b_, "kind", "") == "assign" and len(getattr(b_, "all_values", []) or []) == 1 else None
                 if isinstance(tv, ast.Dict) and tv.values and all(isinstance(x, ast.Constant) and isinstance(x.value, bool) for x in tv.values):
                     return True
+            if isinstance(v, ast.Call) and isinstance(v.func, ast.Attribute) and v.func.attr == "get" and isinstance(v.func.value, ast.Name) and len(v.args) == 1:
+                # `<table>.get(key)` is a bool or None; fine when a later `if <switch> is None:` re-binds the switch to a bool on its true edge
+                b_ = mod.symbols.get(v.func.value.id)
+                tv = getattr(b_, "value", None) if b_ is not None and getattr(b_, "kind", "") == "assign" and len(getattr(b_, "all_values", []) or []) == 1 else None
+                if isinstance(tv, ast.Dict) and tv.values and all(isinstance(x, ast.Constant) and isinstance(x.value, bool) for x in tv.values):
+                    for st_ in mod.tree.body:
+                        if isinstance(st_, ast.If) and norm(st_.test) == f"{sw} is None" and any(
+                                isinstance(y, ast.Assign) and assigned_name(y) == sw and _boolish(y.value) for y in st_.body):
+                            return True
             if isinstance(v, ast.Call) and isinstance(v.func, ast.Attribute) and v.func.attr == "get" and isinstance(v.func.value, ast.Name) and len(v.args) == 2:
                 b_ = mod.symbols.get(v.func.value.id)
                 tv = getattr(b_, "value", None) if b_ is not None and getattr(b_, "kind", "") == "assign" and len(getattr(b_, "all_values", []) or []) == 1 else None
